@@ -191,20 +191,26 @@ Proof. intros H1 H2. unfold read_xml. now rewrite xml_adapter_is_data_model. Qed
 Theorem decoder_error_is_an_error ts : read_xml ts true = None.
 Proof. reflexivity. Qed.
 
-(** white space around the document element is not a node; inside it is *)
-Theorem top_level_whitespace_dropped ps : forallb is_xml_ws (concat ps) = true ->
-  dm_events 0 (XT ps) = [] /\ forall d, d <> 0 -> dm_events d (XT ps) = [EvLeaf (LText (concat ps))].
+(** white space (and a byte order mark) around the document element is not a node; inside
+    the document element every non-empty run of character data is *)
+Theorem top_level_whitespace_dropped ps : forallb top_ignorable (concat ps) = true ->
+  dm_events 0 (XT ps) = [] /\ forall d, d <> 0 -> concat ps <> [] -> dm_events d (XT ps) = [EvLeaf (LText (concat ps))].
 Proof.
-  intros H. split; [simpl; now rewrite H|]. intros d Hd. simpl.
-  destruct (Z.eqb_spec d 0); [congruence|reflexivity].
+  intros H. split; [simpl; rewrite H; now rewrite Bool.orb_true_r|]. intros d Hd Hne. simpl.
+  destruct (concat ps) eqn:E; [congruence|]. destruct (Z.eqb_spec d 0); [congruence|reflexivity].
 Qed.
 
+(** a text node has at least one character: character data that is empty altogether (an empty
+    CDATA section on its own) is no node, at any depth *)
+Theorem empty_character_data_is_no_node ps d : concat ps = [] -> dm_events d (XT ps) = [].
+Proof. intros H. simpl. now rewrite H. Qed.
+
 (** adjacent character data (text, CDATA sections, references) is ONE text node *)
-Theorem adjacent_character_data_is_one_text_node ps d : ps <> [] -> d <> 0 ->
+Theorem adjacent_character_data_is_one_text_node ps d : ps <> [] -> d <> 0 -> concat ps <> [] ->
   xml_events d None (map XChar ps ++ [XEnd]) = EvLeaf (LText (concat ps)) :: EvEnd :: xml_events (d - 1) None [].
 Proof.
-  intros Hp Hd. rewrite text_pieces_merge by exact Hp. simpl.
-  destruct (Z.eqb_spec d 0); [congruence|reflexivity].
+  intros Hp Hd Hne. rewrite text_pieces_merge by exact Hp. simpl.
+  destruct (concat ps) eqn:E; [congruence|]. destruct (Z.eqb_spec d 0); [congruence|reflexivity].
 Qed.
 
 (** ** the one place where the adapter departs from the data model (open known
